@@ -155,7 +155,7 @@ Section S.
   Proof.
     intros Hg Hp Hc. unfold run_ptask, run_task, run_task_with. rewrite Hg.
     rewrite !(edges_record_consumer matches _ _ _ _ Hp). rewrite (run_pbody_consumer _ _ _ Hp Hc).
-    cbn [negb andb orb].
+    cbn [negb andb orb]. rewrite Hp, andb_false_r.
     set (rt := rsv w t). set (Ec := echeck E w t).
     destruct (m_skip rt || has_dyn MSkip (tid rt) dyn || memN (tid rt) desel); [reflexivity|].
     destruct (existsb (fun b => b) (m_skipif rt)); [reflexivity|].
